@@ -14,6 +14,37 @@ use std::time::Instant;
 pub fn generators(tier: &str) -> Vec<StreamGen> {
     let mut v = super::c04::streams_with(tier, if tier == "thorough" { 4 } else { 3 });
     v.extend(super::c05::streams_with(tier, if tier == "thorough" { 4 } else { 3 }));
+    // an id first defined WITH a field the library does not know (in a packet of its own, with or without data), then
+    // re-announced known-only by a later packet that also carries data - and the reverse order: whatever a build
+    // remembers about an id must follow its latest definition
+    for ipfix in [false, true] {
+        let mk = move |i: u64| -> Option<Vec<Vec<u8>>> {
+            use crate::wire::*;
+            let d = digits(i, &[2, 3, 2, 3, 2]);
+            let unk = fs(600, [1u16, 2, 4][d[1] as usize]);
+            let k1 = if ipfix { fs(1, 4) } else { fs(1, 4) };
+            let k2 = fs(7, 2);
+            let with_unknown: Vec<FieldSpec> = if d[0] == 0 { vec![unk, k1] } else { vec![k1, unk] };
+            let known_only: Vec<FieldSpec> = vec![k1, k2];
+            let (first, second) = if d[4] == 0 { (with_unknown, known_only) } else { (known_only, with_unknown) };
+            let body = |f: &[FieldSpec], salt: usize| -> Vec<u8> { (0..2 * f.iter().map(|x| x.len as usize).sum::<usize>()).map(|j| fill(salt, j)).collect() };
+            let pkt = |sets: Vec<(bool, Vec<FieldSpec>, usize)>| -> Vec<u8> {
+                if ipfix {
+                    ipfix_message(&IpfixMsg::new(sets.into_iter().map(|(is_t, f, salt)| if is_t { IpfixSet::Tpl(vec![IpfixTpl { id: 256, fields: f }], 0) } else { IpfixSet::Data(256, body(&f, salt)) }).collect()))
+                } else {
+                    v9_packet(&V9Pkt::new(sets.into_iter().map(|(is_t, f, salt)| if is_t { V9Set::Tpl(vec![V9Tpl { id: 256, fields: f }], 0) } else { V9Set::Data(256, body(&f, salt)) }).collect()))
+                }
+            };
+            let p1 = if d[2] == 0 { pkt(vec![(true, first.clone(), 0)]) } else { pkt(vec![(true, first.clone(), 0), (false, first.clone(), 5)]) };
+            let calls = match d[3] {
+                0 => vec![p1, pkt(vec![(true, second.clone(), 0), (false, second.clone(), 9)])],
+                1 => vec![p1, pkt(vec![(true, second.clone(), 0)]), pkt(vec![(false, second.clone(), 9)])],
+                _ => vec![[p1, pkt(vec![(true, second.clone(), 0)]), pkt(vec![(false, second.clone(), 9)])].concat()],
+            };
+            Some(calls)
+        };
+        v.push(super::stream::stream_gen(if ipfix { "ipfix-id-redefined-between-unknown-and-known-only-across-packets" } else { "v9-id-redefined-between-unknown-and-known-only-across-packets" }, 2 * 3 * 2 * 3 * 2, mk));
+    }
     v
 }
 
@@ -21,15 +52,86 @@ pub fn generators(tier: &str) -> Vec<StreamGen> {
 /// Unknown (table lookup, identical in both builds) ; bit1 = a decoded data record contains such a field ;
 /// bit2 = the stream was skipped by its generator
 pub fn observe(calls: &[Vec<u8>]) -> (u64, u8) {
+    let (d, f, _) = observe3(calls);
+    (d, f)
+}
+
+/// is the packet, as the REFERENCE decodes it from the bytes (identically in both builds), free of fields the library
+/// types Unknown - in its template records and in its data records?
+fn ref_known_only(pk: &crate::cform::CPkt, governing: &mut std::collections::HashMap<(u16, u16), bool>) -> bool {
+    use crate::cform::*;
+    use crate::refmodel::{class_ipfix, class_v9, Class};
+    match pk {
+        CPkt::Var(r) => {
+            let v9 = r.version == 9;
+            let unk = |x: &CTplField| {
+                if v9 {
+                    class_v9(x.ty) == Class::Unknown
+                } else {
+                    x.pen.is_none() && class_ipfix(&crate::wire::FieldSpec { ty: x.ty, len: x.len, pen: x.pen }) == Class::Unknown
+                }
+            };
+            let mut known_only = true;
+            // sets in order: `governing` says whether the latest definition of (version, id) holds an unknown field
+            for s in &r.sets {
+                match &s.body {
+                    CBody::Tpl(ts, _) | CBody::OptTpl(ts, _) => {
+                        for t in ts {
+                            let (id, u) = match t {
+                                CTpl::Plain(id, _, f) | CTpl::IpfixOpt(id, _, _, f) => (*id, f.iter().any(unk)),
+                                // V9 scope fields are typed by the scope table, not by the field table
+                                CTpl::V9Opt(id, _, _, _, b) => (*id, b.iter().any(unk)),
+                            };
+                            governing.insert((r.version, id), u);
+                            known_only &= !u;
+                        }
+                    }
+                    CBody::Data(..) | CBody::OptData(..) => {
+                        known_only &= !governing.get(&(r.version, s.id)).cloned().unwrap_or(false);
+                    }
+                }
+            }
+            known_only
+        }
+        CPkt::Fixed(_) => true,
+        _ => false,
+    }
+}
+
+/// third component: digest over the packets of the stream that contain only known fields (classified by the reference
+/// decode of the bytes, so both builds classify alike); 0 when the reference cannot follow the stream
+pub fn observe3(calls: &[Vec<u8>]) -> (u64, u8, u64) {
     let mut p = NetflowParser::default();
     let mut acc: Vec<u64> = vec![];
+    let mut acc2: Vec<u64> = vec![];
+    let mut rc = crate::refmodel::RefCache::default();
+    let mut classified = true;
+    let mut governing: std::collections::HashMap<(u16, u16), bool> = Default::default();
     let mut flags = 0u8;
     // does the latest definition of (protocol, id) seen in the results contain a field the library types Unknown?
     let mut latest_unknown: std::collections::HashMap<(u8, u16), bool> = Default::default();
     for c in calls {
         let res = p.parse_bytes(c);
-        for e in &res {
+        let exp = match crate::refmodel::ref_buffer(c, &mut rc) {
+            Ok(e) => e,
+            Err(_) => {
+                classified = false;
+                vec![]
+            }
+        };
+        // classify every packet the reference sees, in order (the table of governing definitions must follow them all)
+        let classes: Vec<bool> = exp.iter().map(|pk| ref_known_only(pk, &mut governing)).collect();
+        for (k, e) in res.iter().enumerate() {
             acc.push(h64(&format!("{:?}", e)));
+            if classes.get(k).cloned().unwrap_or(false) {
+                acc2.push(h64(&(k, format!("{:?}", e))));
+                acc2.push(h64(&format!("{:?}", e.as_netflow_common().map_err(|_| "error"))));
+                match e {
+                    NetflowPacket::V9(x) => acc2.push(h64(&format!("{:?}", x.to_be_bytes().map_err(|e| e.to_string())))),
+                    NetflowPacket::IPFix(x) => acc2.push(h64(&format!("{:?}", x.to_be_bytes().map_err(|e| e.to_string())))),
+                    _ => {}
+                }
+            }
             match e {
                 NetflowPacket::V9(x) => {
                     acc.push(h64(&format!("{:?}", x.to_be_bytes().map_err(|e| e.to_string()))));
@@ -105,29 +207,30 @@ pub fn observe(calls: &[Vec<u8>]) -> (u64, u8) {
             acc.push(h64(&format!("{:?}", e.as_netflow_common().map_err(|_| "error"))));
         }
     }
-    (h64(&acc), flags)
+    (h64(&acc), flags, if classified && !acc2.is_empty() { h64(&acc2) | 1 } else { 0 })
 }
 
 /// `nfmc dump <tier> <outfile>`: one record (u64 digest, u8 flags) per index of every generator, in order
 pub fn dump(tier: &str, out: &str) -> i32 {
     let mut f = std::io::BufWriter::new(std::fs::File::create(out).expect("dump file"));
     for g in generators(tier) {
-        let recs: Vec<(u64, u8)> = (0..g.size).into_par_iter().map(|i| match (g.gen)(i) {
-            Some(c) => observe(&c),
-            None => (0, 4),
+        let recs: Vec<(u64, u8, u64)> = (0..g.size).into_par_iter().map(|i| match (g.gen)(i) {
+            Some(c) => observe3(&c),
+            None => (0, 4, 0),
         }).collect();
-        for (d, fl) in recs {
+        for (d, fl, d2) in recs {
             f.write_all(&d.to_le_bytes()).unwrap();
             f.write_all(&[fl]).unwrap();
+            f.write_all(&d2.to_le_bytes()).unwrap();
         }
     }
     f.flush().unwrap();
     0
 }
 
-fn read_dump(path: &str) -> Vec<(u64, u8)> {
+fn read_dump(path: &str) -> Vec<(u64, u8, u64)> {
     let b = std::fs::read(path).unwrap_or_default();
-    b.chunks(9).filter(|c| c.len() == 9).map(|c| (u64::from_le_bytes(c[..8].try_into().unwrap()), c[8])).collect()
+    b.chunks(17).filter(|c| c.len() == 17).map(|c| (u64::from_le_bytes(c[..8].try_into().unwrap()), c[8], u64::from_le_bytes(c[9..17].try_into().unwrap()))).collect()
 }
 
 pub fn run(tier: &str) -> i32 {
@@ -186,8 +289,8 @@ pub fn run(tier: &str) -> i32 {
             let mut keys = std::collections::HashSet::new();
             let mut tags: std::collections::BTreeMap<&'static str, u64> = Default::default();
             for i in 0..n {
-                let (d1, f1) = don[base + i];
-                let (d2, f2) = doff[base + i];
+                let (d1, f1, k1) = don[base + i];
+                let (d2, f2, k2) = doff[base + i];
                 if f1 & 4 != 0 {
                     continue;
                 }
@@ -211,6 +314,13 @@ pub fn run(tier: &str) -> i32 {
                     if f2 & 2 != 0 {
                         add("feature-off-reports-record-with-unknown-field", "the --no-default-features build reports a decoded data record that contains a field the library does not know".into());
                     }
+                    // the PACKETS of such a stream that contain only known fields decode, re-export and convert alike
+                    if k1 != 0 && k2 != 0 {
+                        *tags.entry("known-only-packets-of-a-stream-with-unknown-fields-compared").or_insert(0) += 1;
+                        if k1 != k2 {
+                            add("known-only-packet-differs-between-builds", "a packet that contains only fields known to the library (in a stream that elsewhere uses a field it does not know) decodes / re-exports / converts differently in the --no-default-features build".into());
+                        }
+                    }
                     if f1 & 2 != 0 {
                         // vacuity guard: the default build does decode such records, so the clause is exercised
                         *tags.entry("unknown-field-record-decoded-by-default-build").or_insert(0) += 1;
@@ -227,10 +337,13 @@ pub fn run(tier: &str) -> i32 {
                 move |i| {
                     // re-evaluation for confirmation: compare the two recorded dumps again at this index
                     let (a, b) = (read_dump(&on2), read_dump(&off2));
-                    let ((d1, f1), (d2, f2)) = (a[b2 + i as usize], b[b2 + i as usize]);
+                    let ((d1, f1, k1), (d2, f2, k2)) = (a[b2 + i as usize], b[b2 + i as usize]);
                     let mut is = vec![];
                     if f1 & 1 == 0 && d1 != d2 {
                         is.push(issue("known-only-stream-differs-between-builds", ""));
+                    }
+                    if f1 & 1 != 0 && k1 != 0 && k2 != 0 && k1 != k2 {
+                        is.push(issue("known-only-packet-differs-between-builds", ""));
                     }
                     if f1 & 1 != 0 && f2 & 2 != 0 {
                         is.push(issue("feature-off-reports-record-with-unknown-field", ""));
@@ -251,7 +364,7 @@ pub fn run(tier: &str) -> i32 {
         bounds: json!({"spaces": "all generators of C04 and C05 at this tier", "builds": ["default features", "--no-default-features"]}),
         assumptions: vec!["enterprise-specific IPFIX fields are decoded as opaque bytes by an explicit branch in both builds and are not counted as unknown".into()],
         trusted_base: vec!["c17::observe".into()],
-        required_tags: if build_ok { vec!["known-only-stream-compared", "stream-with-unknown-field", "unknown-field-record-decoded-by-default-build"] } else { vec![] },
+        required_tags: if build_ok { vec!["known-only-stream-compared", "stream-with-unknown-field", "unknown-field-record-decoded-by-default-build", "known-only-packets-of-a-stream-with-unknown-fields-compared"] } else { vec![] },
         extra: [("feature_off_build_ok".to_string(), json!(build_ok))].into_iter().collect(),
     };
     finish(rep, &spaces, results, &known, t0)
